@@ -664,7 +664,7 @@ type c19DerivedProg struct {
 
 func genC19Derived(t *simrt.Tape) *c19DerivedProg {
 	// composite element types are the ones that exercise shared helper state
-	derivedTypes := []string{"int", "string", "slice", "any", "slice", "any"}
+	derivedTypes := []string{"int", "string", "slice", "any", "slice", "any", "struct", "struct"}
 	p := &c19DerivedProg{Shape: "derived-instances", Type: derivedTypes[t.Choose(len(derivedTypes))]}
 	n := t.Range(2, 5)
 	used := map[int]bool{}
@@ -783,8 +783,21 @@ func c19Compare(ctx *Ctx, refLogs, logs [][]string, refRes, res *simrt.Result, w
 	}
 }
 
+// c19Point: a structure element type whose fields hold a slice and a map: the
+// collator descends into them (its depth counter) although the element type
+// itself is "flat".  Few distinct X values, so that ranking has to go on to Tags.
+type c19Point struct {
+	X    int
+	Tags []int
+	Attr map[string]int
+}
+
 func runC19Derived(ctx *Ctx, p *c19DerivedProg) {
 	switch p.Type {
+	case "struct":
+		c19DerivedTyped[c19Point](ctx, p, "struct", func(i int) c19Point {
+			return c19Point{X: i % 2, Tags: []int{i % 3, i, i + 1}, Attr: map[string]int{"a": i % 2, "b": i}}
+		})
 	case "int":
 		c19DerivedTyped[int](ctx, p, "int", func(i int) int { return i*3 - 7 })
 	case "string":
